@@ -63,6 +63,16 @@ func (s *S) bad() bool {
 	return false
 }
 
+func (s *S) depth() int {
+	d := 0
+	for _, x := range s.Subs {
+		if k := x.depth(); k > d {
+			d = k
+		}
+	}
+	return d + 1
+}
+
 // stats: number of rec clauses, max nesting of a rec under other clauses, kinds of parents of recs
 func (s *S) walk(parents []string, f func(s *S, parents []string)) {
 	f(s, parents)
@@ -288,6 +298,9 @@ func classify(v *pbt.Verdict, s *S) {
 		}
 	})
 	v.NonTrivial = nested
+	if d := s.depth(); d >= 30 {
+		v.Label("nesting>=30")
+	}
 	if s.bad() {
 		v.Label("truth-bad")
 	} else {
@@ -400,7 +413,30 @@ func judgeE2E(s *S) *pbt.Verdict {
 	return v
 }
 
-func gen(t *rapid.T) *S { return genS(t, 0, false) }
+func gen(t *rapid.T) *S {
+	s := genS(t, 0, false)
+	// one case in eight buries the selector under many nested clauses ("at any nesting depth")
+	if rapid.IntRange(0, 7).Draw(t, "deep") == 0 {
+		n := rapid.SampledFrom([]int{8, 16, 31, 32, 33, 40, 64}).Draw(t, "layers")
+		for i := 0; i < n; i++ {
+			switch rapid.IntRange(0, 5).Draw(t, "layer") {
+			case 0:
+				s = &S{K: "all", Subs: []*S{s}}
+			case 1:
+				s = &S{K: "fields", Fields: []string{rapid.SampledFrom(fieldNames).Draw(t, "lf")}, Subs: []*S{s}}
+			case 2:
+				s = &S{K: "index", I: 0, Subs: []*S{s}}
+			case 3:
+				s = &S{K: "range", I: 0, J: 2, Subs: []*S{s}}
+			case 4:
+				s = &S{K: "union", Subs: []*S{{K: "match"}, s}}
+			default:
+				s = &S{K: "interp", ADL: "unixfs", Subs: []*S{s}}
+			}
+		}
+	}
+	return s
+}
 
 var def = pbt.Def[*S]{Name: "validator", Gen: gen, Run: judge}
 var defE2E = pbt.Def[*S]{Name: "responder-status", Gen: gen, Run: judgeE2E}
